@@ -28,8 +28,10 @@ GROUPS = {
     # ------------------------------------------------------------------ battery / EV kernels
     "Battery": dict(domains=["Q", "R"], anchors=[
         dict(name="Battery_charge", file=BATT, qual="Battery.charge"),
+        # Q twin: exp is Base.QExp.qexp_fast (= Num.qexp, proved; 10x faster under vm_compute)
         dict(name="L2_charge", file=BATT, qual="Linear2StageBattery._charge",
-             inline_props={"_soc": "Battery._soc"}, call_params=NOISE),
+             inline_props={"_soc": "Battery._soc"}, call_params=NOISE,
+             ops_override={"Q": {"exp": "qexp_fast"}}, imports={"Q": "From ACN Require Import Base.QExp."}),
         dict(name="L2_charge_stepwise", file=BATT, qual="Linear2StageBattery._charge_stepwise",
              inline_props={"_soc": "Battery._soc"}, call_params=NOISE),
         dict(name="EV_charge", file=EVPY, qual="EV.charge",
